@@ -60,11 +60,35 @@ def main(argv):
         d, lines, model, blocks = run_ops(ops, src.get("user_logger", True))
         for ln in lines:
             print("  " + ln[:200])
+        from . import oracles
+        pid = rp.get("property")
+        msgs = [m for m in oracles.check(ops, blocks).get(pid, []) if not m.startswith("KNOWN[")]
+        rc = 0
+        if msgs:
+            print("property oracle (%s) on the implementation: %s" % (pid, msgs[0]))
+            rc = 1
         if d is None:
             print("model and implementation agree on this history")
-            return 0
-        print("difference at operation %d: %s" % d)
-        return 1
+        else:
+            print("difference at operation %d: %s" % d)
+            rc = 1
+        return rc
+    if argv[0] == "probe":
+        # replay the witness of every known finding of a property; print KNOWN-FINDING while it still fails
+        from . import oracles
+        pid = argv[1]
+        for kf in json.load(open(core.VERIF + "/known_findings.json")):
+            if kf.get("status") != "known" or kf["property"] != pid or "witness_ops" not in kf:
+                continue
+            impl = core.Impl()
+            impl.run(kf["witness_ops"])
+            msgs = oracles.check(kf["witness_ops"], impl.blocks).get(pid, [])
+            if any(m.startswith("KNOWN[%s]" % kf["id"]) for m in msgs):
+                print("KNOWN-FINDING: property=%s %s: %s" % (pid, kf["id"], kf["what"]))
+            other = [m for m in msgs if not m.startswith("KNOWN[")]
+            if other:
+                print("UNLISTED %s" % other[0])
+        return 0
     if argv[0] == "shrink":
         rp = json.load(open(argv[1]))
         ops, info = shrink(rp["ops"], rp.get("user_logger", True))
